@@ -1,4 +1,5 @@
 import GqlProofs.Schema.Bridge
+import GqlProofs.Schema.Roots
 /-
   Soundness of the loader w.r.t. the spec: what `load sd = ok s` implies about `Spec.WellFormed sd`.
 -/
@@ -326,18 +327,54 @@ structure SoundClauses (sd : SchemaDoc) : Prop where
   enumValuesNotLiterals : Spec.enumValuesNotLiterals (.ofDoc sd) = true
   enumValueNamesNotReserved : Spec.enumValueNamesNotReserved (.ofDoc sd) = true
   rootOperationTypesOnce : Spec.rootOperationTypesOnce sd = true
+  rootTypesAreObjects : Spec.rootTypesAreObjectsDoc sd = true
+
+/-- **every loaded schema has object types as root operation types** (the loader's last check;
+    before the repair `scalar Query`, `input Query {…}`, `schema { query: Int }` loaded) -/
+theorem loaded_rootTypesAreObjects {sd : SchemaDoc} {s : Schema} (h : load sd = .ok s) :
+    Spec.rootTypesAreObjects s = true := by
+  obtain ⟨st, r1, d1, F⟩ := loaded_facts h
+  rw [F.eq]
+  have hk := checkRootKinds_pass_iff.mp F.rootKinds
+  have key : ∀ o, isRootOp o = true → ∀ n, rootOf (finalRoots sd st r1) o = some n →
+      Spec.typeIs (mkSchema sd st r1 d1) n (· == .object) = true := by
+    intro o ho n hr
+    have hsome : (st.types.lookup n).isSome := by
+      obtain ⟨h1, h2, h3⟩ := F.roots
+      simp only [isRootOp, Bool.or_eq_true, beq_iff_eq] at ho
+      rcases ho with (rfl | rfl) | rfl
+      · rw [rootOf_query] at hr; exact h1 n hr
+      · rw [rootOf_mutation] at hr; exact h2 n hr
+      · rw [rootOf_subscription] at hr; exact h3 n hr
+    cases hl : st.types.lookup n with
+    | none => rw [hl] at hsome; cases hsome
+    | some d => exact typeIs_mkSchema hl (by simp [hk o ho n d hr hl])
+  have hq : (mkSchema sd st r1 d1).query = (finalRoots sd st r1).query := rfl
+  have hm : (mkSchema sd st r1 d1).mutation = (finalRoots sd st r1).mutation := rfl
+  have hs : (mkSchema sd st r1 d1).subscription = (finalRoots sd st r1).subscription := rfl
+  simp only [Spec.rootTypesAreObjects, List.all_cons, List.all_nil, Bool.and_true, Bool.and_eq_true, hq, hm, hs]
+  refine ⟨?_, ?_, ?_⟩
+  · cases hr : (finalRoots sd st r1).query with
+    | none => rfl
+    | some n => exact key opQuery (by decide) n (by rw [rootOf_query]; exact hr)
+  · cases hr : (finalRoots sd st r1).mutation with
+    | none => rfl
+    | some n => exact key opMutation (by decide) n (by rw [rootOf_mutation]; exact hr)
+  · cases hr : (finalRoots sd st r1).subscription with
+    | none => rfl
+    | some n => exact key opSubscription (by decide) n (by rw [rootOf_subscription]; exact hr)
 
 theorem load_sound {sd : SchemaDoc} {s : Schema} (h : load sd = .ok s)
     (hext : ∀ e ∈ sd.extensions, e.builtIn = false) : SoundClauses sd := by
   obtain ⟨st, r1, d1, F⟩ := loaded_facts h
-  obtain ⟨st0, r0, d0, r1', d1', hb, hlen, h0, h1, _, _, _⟩ := load_ok_inv h
+  obtain ⟨st0, r0, d0, r1', d1', hb, hlen, h0, h1, _, _, hs1, _⟩ := load_ok_inv' h
   have : st0 = st := by rw [F.built] at hb; simpa using hb.symm
   subst this
   have hmem : ∀ d ∈ (Spec.TypeSystem.ofDoc sd).types, (d.name, d) ∈ st0.types :=
     fun d hd => spec_types_mem F.built hext hd
   have hD : ∀ d ∈ (Spec.TypeSystem.ofDoc sd).types, DefOK st0 d := fun d hd => F.defOK _ (hmem d hd)
   have hty := spec_typeIs_eq F.built hext
-  refine ⟨?_, ?_, ?_, ?_, ?_, ?_, ?_, ?_, ?_, ?_, ?_, ?_, ?_, ?_, ?_⟩
+  refine ⟨?_, ?_, ?_, ?_, ?_, ?_, ?_, ?_, ?_, ?_, ?_, ?_, ?_, ?_, ?_, ?_⟩
   · exact pairwiseDistinct_of_nodup (buildState_defs_nodup F.built)
   · simp only [Spec.uniqueFieldNames, List.all_eq_true]
     exact fun d hd => checkUniqueFields_pass (hD d hd).uniqueFields
@@ -401,5 +438,12 @@ theorem load_sound {sd : SchemaDoc} {s : Schema} (h : load sd = .ok s)
       exact kindSpecific_enumValueNames (hD d hd).kindSpecific hk v hv
     · left; simp [hk]
   · exact load_rootsOnce h
+  · -- the roots the two passes left are the r1 of `Facts` (same schema, same state)
+    obtain ⟨stx, r0x, d0x, r1x, d1x, hbx, _, h0x, h1x, _, _, _, hkx⟩ := load_ok_inv' h
+    have : stx = st0 := by rw [F.built] at hbx; simpa using hbx.symm
+    subst this
+    rw [rootTypesAreObjectsDoc_iff]
+    intro o ho
+    exact rootIsObject_of_check F.typesInv (spec_type_eq F.built hext) (rootsFrom_of_apply h0x h1x) hkx ho
 
 end Gql.Load
